@@ -66,6 +66,13 @@ CHECKS = {
          'holds by construction for all strings and positions.'),
    note='Trusted: bisect_right semantics and that _pos_new_lines is the sorted table of line starts (value-level, not decided).',
    technique='AST def-use / algebraic shape check of pos_to_lineno_colno, option forwarding by name, truthiness-of-position rule'),
+ 'C18': dict(level='other', design='DESIGN.md section 5, C18',
+   text=('Per-site structural conditions of the splitting / key-value functions: chunk text and chunk position use the '
+         'same slice bounds, parts end at the separator start, only top-level chars nodes are searched, the key-value '
+         'result is type-consistent across policy branches, the query functions never mutate an existing node list in '
+         'place (also through local aliases), and the max_split bound is maintained on every separator path.'),
+   note='The partition identity (joining parts reproduces the source) is value-level and is not decided; user separator callables are outside the rule.',
+   technique='AST slice/position agreement, sibling-branch type agreement, alias-aware in-place mutation analysis, path enumeration for the max_split bound'),
 }
 
 NOT_YET = {}
